@@ -18,6 +18,16 @@ for pid in ALL:
     if getattr(pl, "CLAIMED", True) is False:
         na.append({"property_id": pid, "reason": getattr(pl, "NA_REASON", PENDING_REASON)})
         continue
+    ev = os.path.join(core.ROOT, "evidence", pid + ".json")
+    ready = all(hasattr(pl, a) for a in ("LEVEL_TEXT", "LEVEL_NOTE", "TECHNIQUE")) and os.path.exists(ev)
+    if ready:
+        try:
+            ready = json.load(open(ev)).get("violations", 1) == 0
+        except Exception:
+            ready = False
+    if not ready:
+        na.append({"property_id": pid, "reason": PENDING_REASON})
+        continue
     checks.append({
         "property_id": pid,
         "quick_cmd": "python3 tools/check.py %s --tier quick" % pid,
